@@ -914,4 +914,199 @@ theorem declLoop_finv (opts : Opts) :
             exact ⟨f3.sub hk2 hsub, s3.sub hsub⟩
           · exact ih _ _ _ _ _ _ _ (f3.sub hk2 hsub) h
 
+/-! ## `define_remaining` and `match_all` -/
+
+theorem FInv.symbols_congr {opts : Opts} {d : Decls} {defs defs' : Defs} {nodes : List AstNode} (h : defs'.symbols = defs.symbols)
+    (f : FInv opts d defs nodes) : FInv opts d defs' nodes := by
+  refine ⟨f.kinv, f.fn, fun r hr => f.s0 r (by rw [h] at hr; exact hr), fun n hn => ?_⟩
+  exact NI_congr opts d defs defs' n (fun r _ => ⟨sym_of_symbols_eq h r, by rw [h]⟩) (f.ni n hn)
+
+theorem SlotsOK.symbols_congr {defs defs' : Defs} {nodes : List AstNode} (h : defs'.symbols = defs.symbols)
+    (s : SlotsOK defs nodes) : SlotsOK defs' nodes := fun n hn r hr => by rw [h]; exact s n hn r hr
+
+/-- the function symbols are defined beside the symbol nodes' slots -/
+theorem fnFold_finv (opts : Opts) (d : Decls) (base : Defs) (nodes : List AstNode) :
+    ∀ (l : List AstNode) (acc : List FnDef × List (Option SymDef)), (∀ n ∈ l, n ∈ nodes) →
+      FInv opts d { base with symbols := acc.2 } nodes → SlotsOK { base with symbols := acc.2 } nodes →
+      FInv opts d { base with symbols := (l.foldl (fun (acc : List FnDef × List (Option SymDef)) n =>
+        match n with
+        | .fn _ ps body (some r) =>
+          let idx := acc.1.length
+          (acc.1 ++ [⟨r, ps, body⟩],
+           (padTo acc.2 r none).set r (some { noEmit := true, known := true, value := .fn idx, resolved := true }))
+        | _ => acc) acc).2 } nodes ∧
+      SlotsOK { base with symbols := (l.foldl (fun (acc : List FnDef × List (Option SymDef)) n =>
+        match n with
+        | .fn _ ps body (some r) =>
+          let idx := acc.1.length
+          (acc.1 ++ [⟨r, ps, body⟩],
+           (padTo acc.2 r none).set r (some { noEmit := true, known := true, value := .fn idx, resolved := true }))
+        | _ => acc) acc).2 } nodes := by
+  intro l
+  induction l with
+  | nil => intro acc _ f s; exact ⟨f, s⟩
+  | cons n rest ih =>
+    intro acc hsub f s
+    rw [List.foldl_cons]
+    have hrest : ∀ m ∈ rest, m ∈ nodes := fun m hm => hsub m (List.mem_cons_of_mem _ hm)
+    split
+    · rename_i nm ps body r
+      have hkn := f.kinv _ (hsub _ List.mem_cons_self)
+      simp only [KN] at hkn
+      apply ih _ hrest
+      · -- FInv after defining the function symbol at `r`
+        refine ⟨f.kinv, f.fn, fun r' hr' => ?_, fun m hm => ?_⟩
+        · simp only [slot_padset] at hr'
+          by_cases he : r' = r
+          · rw [he]; exact hkn.1
+          · simp only [he, if_false] at hr'; exact f.s0 r' hr'
+        · refine NI_congr opts d { base with symbols := acc.2 } _ m (fun r' hr' => ?_) (f.ni m hm)
+          have hne : r' ≠ r := by
+            intro he
+            subst he
+            have hkm := f.kinv m hm
+            cases m with
+            | symbol l2 n2 k2 ne2 rr =>
+              cases rr with
+              | none => cases hr'
+              | some r2 =>
+                simp only [symRef, Option.some.injEq] at hr'
+                subst hr'
+                simp only [KN] at hkm
+                rw [hkn.2] at hkm
+                cases k2 <;> (simp [kindOfSym] at hkm)
+            | _ => cases hr'
+          have h1 := sym_padset { base with symbols := acc.2 } r r' { noEmit := true, known := true, value := .fn acc.1.length, resolved := true }
+          simp only [hne, if_false] at h1
+          refine ⟨h1, ?_⟩
+          simp only [slot_padset, hne, if_false]
+      · intro m hm r' hr'
+        simp only [slot_padset]
+        by_cases he : r' = r
+        · simp only [he, if_true, Option.isSome_some]
+        · simp only [he, if_false]; exact s m hm r' hr'
+    · exact ih acc hrest f s
+
+theorem foldl_assignRef_refSub (nodes : List AstNode) : ∀ (l : List AstNode) (acc : Defs × List AstNode),
+    (∀ n ∈ l, n ∈ nodes) → RefSub acc.2 nodes → RefSub (l.foldl assignRef acc).2 nodes := by
+  intro l
+  induction l with
+  | nil => intro acc _ h; exact h
+  | cons n rest ih =>
+    intro acc hsub h
+    rw [List.foldl_cons]
+    refine ih _ (fun m hm => hsub m (List.mem_cons_of_mem _ hm)) ?_
+    have hn := hsub n List.mem_cons_self
+    obtain ⟨df, out⟩ := acc
+    intro x hx hr
+    unfold assignRef at hx
+    simp only at hx
+    split at hx <;> (
+      simp only at hx
+      rcases List.mem_append.mp hx with hx | hx
+      · exact h x hx hr
+      · simp only [List.mem_singleton] at hx
+        first
+          | (subst hx; cases hr; done)
+          | (subst hx; exact hn))
+
+theorem defineRemaining_finv (opts : Opts) (d : Decls) (defs defs' : Defs) (nodes nodes' : List AstNode)
+    (f : FInv opts d defs nodes) (sl : SlotsOK defs nodes) (h : defineRemaining d defs nodes = .ok (defs', nodes')) :
+    FInv opts d defs' nodes' ∧ SlotsOK defs' nodes' := by
+  have hk' := defineRemaining_kinv d.symbols d defs defs' nodes nodes' f.kinv h
+  unfold defineRemaining at h
+  simp only [bind, Except.bind] at h
+  split at h
+  · cases h
+  · split at h
+    · cases h
+    · simp only [pure, Except.pure] at h
+      injection h with h
+      injection h with h1 h2
+      obtain ⟨ff, sf⟩ := fnFold_finv opts d defs nodes nodes ([], defs.symbols) (fun _ hn => hn)
+        (FInv.symbols_congr (defs := defs) rfl f) (SlotsOK.symbols_congr (defs := defs) rfl sl)
+      have hsub : RefSub nodes' nodes := by
+        rw [← h2]; exact foldl_assignRef_refSub nodes nodes _ (fun _ hn => hn) (fun _ hx => by cases hx)
+      refine ⟨(FInv.symbols_congr ?_ ff).sub hk' hsub, (SlotsOK.symbols_congr ?_ sf).sub hsub⟩
+      · rw [← h1]; exact foldl_assignRef_symbols nodes _ _
+      · rw [← h1]; exact foldl_assignRef_symbols nodes _ _
+
+/-- the slot facts, for the state that enters `match_all` -/
+theorem frontEndPre_finv (opts : Opts) (fs : SrcFiles) (roots : List (List Char))
+    (d : Decls) (defs : Defs) (nodes : List AstNode) (hp : frontEndPre opts fs roots = .ok (d, defs, nodes)) :
+    FInv opts d defs nodes ∧ SlotsOK defs nodes := by
+  unfold frontEndPre at hp
+  split at hp
+  · cases hp
+  · rename_i nodes0 hparse
+    split at hp
+    · cases hp
+    · simp only at hp
+      split at hp
+      · cases hp
+      · rename_i bm _ _ d2 defs2 nodes2 hl
+        split at hp
+        · cases hp
+        · split at hp
+          · cases hp
+          · rename_i defs3 nodes3 hdr
+            injection hp with hp; injection hp with h1 h2
+            injection h2 with h2 h3
+            subst h1 h2 h3
+            have hfresh : ∀ x ∈ nodes0, ∃ y, x = AstNode.fresh y := by
+              cases hpm : parseMany fs roots with
+              | error e => rw [hpm] at hparse; cases hparse
+              | ok ns =>
+                rw [hpm] at hparse
+                injection hparse with hparse
+                rw [← hparse]
+                intro x hx
+                obtain ⟨y, _, rfl⟩ := List.mem_map.mp hx
+                exact ⟨y, rfl⟩
+            have f0 : FInv opts ({ banks := bm } : Decls) {} nodes0 := by
+              refine ⟨fun x hx => ?_, fun a ha b hb r h1 _ => ?_, fun r hr => (by cases hr), fun n hn => ?_⟩
+              · obtain ⟨y, rfl⟩ := hfresh x hx; exact KN_fresh _ y
+              · obtain ⟨y, rfl⟩ := hfresh a ha; rw [symRef_fresh] at h1; cases h1
+              · obtain ⟨y, rfl⟩ := hfresh n hn
+                cases y <;> first | trivial | (rename_i kd _ _; cases kd <;> trivial)
+            obtain ⟨f2, s2⟩ := declLoop_finv opts _ _ _ _ _ _ _ _ f0 hl
+            exact defineRemaining_finv opts _ defs2 _ nodes2 _ f2 s2 hdr
+
+/-- **the slot facts hold of the front end's result** -/
+theorem frontEnd_finv (opts : Opts) (fs : SrcFiles) (roots : List (List Char)) (st : Static) (nodes : List AstNode) (defs0 : Defs)
+    (h : frontEnd opts fs roots = .ok (st, nodes, defs0)) :
+    st.opts = opts ∧ FInv opts st.decls defs0 nodes ∧ SlotsOK defs0 nodes := by
+  unfold frontEnd at h
+  split at h
+  · cases h
+  · rename_i d defsR nodesR hp
+    split at h
+    rename_i defsM rep hm
+    split at h
+    · cases h
+    · injection h with h; injection h with h1 h2
+      injection h2 with h2 h3
+      subst h1 h2 h3
+      obtain ⟨ff, sf⟩ := frontEndPre_finv opts fs roots d defsR nodesR hp
+      have hm' : defsM = (matchAll opts d defsR nodesR).1 := by rw [hm]
+      have hs : defsM.symbols = defsR.symbols := by
+        rw [hm', matchAll_eq]
+        have : ∀ (l : List AstNode) (acc : Defs × List String × List String),
+            (l.foldl (matchStep opts d) acc).1.symbols = acc.1.symbols := by
+          intro l
+          induction l with
+          | nil => intro acc; rfl
+          | cons n rest ih =>
+            intro acc
+            rw [List.foldl_cons, ih]
+            obtain ⟨a, b, c⟩ := acc
+            unfold matchStep
+            simp only
+            split
+            · split <;> rfl
+            · rfl
+            · rfl
+        exact this nodesR (defsR, [], [])
+      exact ⟨rfl, FInv.symbols_congr hs ff, SlotsOK.symbols_congr hs sf⟩
+
 end Casm
